@@ -48,6 +48,11 @@ def deps_table(cargo_toml: str) -> str:
     return m.group(1).strip() + "\n"
 
 
+def move_buffer_capacity(mod_rs: str):
+    m = re.search(r"pub fn get_moves\(\s*&mut self,\s*moves: &mut ArrayVec<Move, (\d+)>", mod_rs)
+    return m.group(1) if m else None
+
+
 FILE_GROUP = {"c_uci.rs": "uci", "c_move.rs": "move", "c_piece.rs": "piece", "c_position.rs": "position", "c_gamestate.rs": "gamestate",
               "c_search.rs": "search", "c_chess.rs": "core", "c_moves.rs": "moves", "instances.rs": "moves", "c_fen.rs": "fen"}
 ALL_GROUPS = sorted(set(FILE_GROUP.values()) | {"rt"})
@@ -180,6 +185,17 @@ def generate(out: str, repo: str = REPO, verif: str = VERIF, harnesses=None, dis
     # snapshot of the contract files: a running check is not disturbed by later edits under /verif
     contracts = os.path.join(out, "contracts")
     shutil.copytree(os.path.join(verif, "contracts"), contracts)
+    # the capacity of the move buffer is whatever the signature of Game::get_moves says (256 on the pinned tree): the contract
+    # files and slice headers name the type `ArrayVec<Move, 256>`; a tree with another capacity gets that number substituted, so
+    # that the obligations are DECIDED for it (push_closure_contract: the buffer takes every list assumption A6 allows)
+    cap = move_buffer_capacity(open(os.path.join(eng, "chess", "mod.rs")).read())
+    if cap is not None and cap != "256":
+        for fname in sorted(os.listdir(contracts)):
+            if fname.endswith(".rs"):
+                cp = os.path.join(contracts, fname)
+                ct = open(cp).read()
+                if "ArrayVec<Move, 256>" in ct:
+                    open(cp, "w").write(ct.replace("ArrayVec<Move, 256>", f"ArrayVec<Move, {cap}>"))
     # per-square harness families: only the instances this run needs (None = none but the singles)
     import gen_instances
     with open(os.path.join(contracts, "instances.rs"), "w") as f:
@@ -222,6 +238,8 @@ def generate(out: str, repo: str = REPO, verif: str = VERIF, harnesses=None, dis
         if not os.path.exists(target):
             raise LostAnchor(f"{sl['name']}: file {sl['file']}")
         text = open(target).read()
+        if cap is not None and cap != "256" and "ArrayVec<Move, 256>" in sl["header"]:
+            sl = dict(sl, header=sl["header"].replace("ArrayVec<Move, 256>", f"ArrayVec<Move, {cap}>"))
         try:
             wrapper, meta = cut_slice(text, sl)
         except LostAnchor as e:
